@@ -454,3 +454,35 @@ fn c13b_records_canary() {
     let m = M2Material::parse(&mut src, 264).unwrap();
     assert!(m.flags.bits() != 0x1234, "canary: must be reported as failing");
 }
+
+// ---------------------------------------------------------------- C13.f record-level version conversion
+/// converting a bone to another version keeps everything both versions can hold: identity, parent, flags,
+/// pivot, and the name CRC whenever the target version is TBC or later (the field exists from TBC on)
+#[kani::proof]
+#[kani::stub(std::fmt::format, vio::fmt_stub)]
+#[kani::unwind(8)]
+fn c13f_bone_convert_keeps_common_content() {
+    use crate::version::M2Version;
+    let mut b = M2Bone::new(kani::any(), kani::any());
+    b.flags = super::bone::M2BoneFlags::from_bits_truncate(kani::any());
+    b.submesh_id = kani::any();
+    b.unknown = kani::any();
+    let crc: u32 = kani::any();
+    b.bone_name_crc = Some(crc);
+    b.pivot.x = f32::from_bits(kani::any());
+    let t: u8 = kani::any();
+    kani::assume(t < 7);
+    let target = match t {
+        0 => M2Version::Vanilla, 1 => M2Version::TBC, 2 => M2Version::WotLK, 3 => M2Version::Cataclysm,
+        4 => M2Version::MoP, 5 => M2Version::WoD, _ => M2Version::Legion,
+    };
+    let c = b.convert(target);
+    kani::cover!(t == 1, "target TBC");
+    assert!(c.bone_id == b.bone_id && c.parent_bone == b.parent_bone && c.flags == b.flags && c.submesh_id == b.submesh_id,
+        "bone conversion changed identity, parent, flags or submesh");
+    assert!(c.pivot.x.to_bits() == b.pivot.x.to_bits(), "bone conversion changed the pivot");
+    if target.to_header_version() >= 260 {
+        assert!(c.bone_name_crc == Some(crc), "bone conversion to TBC or later lost the bone name CRC (representable from TBC on)");
+    }
+    std::mem::forget((b, c));
+}
